@@ -1,7 +1,7 @@
 (* C19 - the command line reports success and failure through its exit status.
    Theorems about the decision table Cli.main_model. *)
 From HclV Require Import Base Cli Generated.
-From HclV Require CliArgs CliArgsSpec CliArgsProofs Tool ToolSpec ToolProofs FrontWfSpec FrontWfProofs.
+From HclV Require CliArgs CliArgsSpec CliArgsProofs Tool ToolSpec ToolProofs FrontWfSpec FrontWfProofs ToolErrSpec ToolErrProofs.
 Open Scope string_scope.
 Open Scope N_scope.
 
@@ -195,3 +195,39 @@ Proof.
   split; [exact FrontWfProofs.tool_abort_is_division_by_zero_unconditional_holds | exact FrontWfProofs.tool_statements_wf_holds].
 Qed.
 Print Assumptions C19_composed_tool_abort_is_division_by_zero.
+
+(* ---- standard error of the whole command (ToolErr*.v): tool_full = (exit status, stdout, stderr) - *)
+(* "with status 1, a message on standard error (or the usage text)": nothing is written on standard
+   error exactly when the status is 0 or the outcome is the usage text; every other failure writes a
+   non-empty message; a final state and a message never go together *)
+Theorem C19_message_on_standard_error_iff_failure :
+  ToolErrSpec.stmt_stderr_empty_iff_status_zero_or_usage /\ ToolErrSpec.stmt_stderr_never_with_final_state /\
+  ToolErrSpec.stmt_stderr_modelled.
+Proof.
+  split; [exact ToolErrProofs.stderr_empty_iff_status_zero_or_usage_holds |].
+  split; [exact ToolErrProofs.stderr_never_with_final_state_holds | exact ToolErrProofs.stderr_modelled_holds].
+Qed.
+Print Assumptions C19_message_on_standard_error_iff_failure.
+(* which message for which cause, in the order of precedence of the decision table: the getopts
+   failure (which one the crate reports first, and that it fails exactly when parse_argv does), the
+   unreadable file, the diagnostics of a rejected file (FullDiag.front_stderr under the file's own
+   name), the extension and timeout messages, the loader's and the simulation's errors *)
+Theorem C19_which_message_for_which_cause :
+  ToolErrSpec.stmt_stderr_message_kinds /\ ToolErrSpec.stmt_getopts_fail_iff /\ ToolErrSpec.stmt_getopts_fail_kinds /\
+  ToolErrSpec.stmt_stderr_rejected_file /\ ToolErrSpec.stmt_stderr_rejected_file_total.
+Proof.
+  split; [exact ToolErrProofs.stderr_message_kinds_holds |].
+  split; [exact ToolErrProofs.getopts_fail_iff_holds |].
+  split; [exact ToolErrProofs.getopts_fail_kinds_holds |].
+  split; [exact ToolErrProofs.stderr_rejected_file_holds | exact ToolErrProofs.stderr_rejected_file_total_holds].
+Qed.
+Print Assumptions C19_which_message_for_which_cause.
+Theorem C19_standard_error_depends_on_files_read_only :
+  ToolErrSpec.stmt_stderr_depends_on_files_read /\ ToolErrSpec.stmt_stderr_program_name_free /\
+  ToolErrSpec.stmt_contents_name_examples /\ ToolErrSpec.stmt_contents_name_simple.
+Proof.
+  split; [exact ToolErrProofs.stderr_depends_on_files_read_holds |].
+  split; [exact ToolErrProofs.stderr_program_name_free_holds |].
+  split; [exact ToolErrProofs.contents_name_examples_holds | exact ToolErrProofs.contents_name_simple_holds].
+Qed.
+Print Assumptions C19_standard_error_depends_on_files_read_only.
